@@ -91,7 +91,7 @@ theorem ex_forwarded :
       have a2 : p' = (exB.allPorts.headD default).1 := by rw [← hp']
       rw [a1, a2]
     · rw [hev, hev']
-  · have : (facilitiesCheck exB.ir.origin exB.ir.structName false false).isNone = true := by decide +kernel
+  · have : (ctorCheck exB.ir false false).isNone = true := by decide +kernel
     exact Option.isNone_iff_eq_none.mp this
   · decide +kernel
 
